@@ -140,6 +140,7 @@ class Ctx:
         self.obligations = []
         self.observations = OrderedDict()
         self.tags = []
+        self.soft_tags = []
         self.nchecks = 0
         self.tcheck = 0.0
         self.fresh = 0
@@ -248,8 +249,10 @@ class Ctx:
             return False
         return True
 
-    def tag(self, label):
-        self.tags.append(label)
+    def tag(self, label, soft=False):
+        """reachability witness; soft tags (decided by a solver 'is it possible' query, symbolic mode only) are not compared
+        with the concrete replay of the path"""
+        (self.soft_tags if soft else self.tags).append(label)
 
     def observe(self, label, value):
         self.observations[label] = value
@@ -1539,7 +1542,7 @@ def run_path(harness, prefix, params, seed=0):
         c.unpatch_all()
     pr.trace = list(c.trace)
     pr.obligations = c.obligations
-    pr.tags = c.tags
+    pr.tags = c.tags + c.soft_tags
     pr.nchecks, pr.tcheck, pr.unknown_branches = c.nchecks, c.tcheck, c.unknown_branches
     return pr, c, sym_obs
 
